@@ -157,7 +157,7 @@ func runBatch(spec *props.Spec, j *Job) *BatchOut {
 	curIdx.Store(-1)
 	hangSec := j.HangSec
 	if hangSec == 0 {
-		hangSec = 45
+		hangSec = 90
 	}
 	var outMu sync.Mutex
 	go func() {
